@@ -680,5 +680,46 @@ func checkSenders(r *vp.Recorder) {
 		}
 		r.Outcome("p2psend-ok")
 	}
+	// bursts: several messages sent back to back through one sender before any
+	// of them is read; every delivery must still be the message that was sent
+	// (what is handed to pubsub must not be touched again by the sender)
+	for burst := 2; burst <= 4; burst++ {
+		bkey := fmt.Sprintf("p2psend|burst%d", burst)
+		r.Eval(bkey, true)
+		var sent []message.Message
+		ctx, cancel := context.WithTimeout(context.Background(), 30*time.Second)
+		for i := 0; i < burst; i++ {
+			msg := message.Message{Cid: cids()[(i+1)%len(cids())], OrigPeer: pub.ID.String()}
+			for j := 0; j <= i; j++ {
+				msg.Addrs = append(msg.Addrs, valid[(i+j)%3].Bytes())
+			}
+			if err := sender.Send(ctx, msg); err != nil {
+				cancel()
+				r.Violation("p2psender:send-error", bkey, err.Error(), nil)
+				return
+			}
+			msg.ExtraData = []byte("xd")
+			sent = append(sent, msg)
+		}
+		for i := 0; i < burst; i++ {
+			pm, err := sub.Next(ctx)
+			if err != nil {
+				cancel()
+				r.Note("pubsub delivery to self failed: %v", err)
+				return
+			}
+			var got message.Message
+			if err := got.UnmarshalCBOR(bytes.NewReader(pm.Data)); err != nil {
+				r.Violation("p2psender:burst:receiver-cannot-decode", bkey, fmt.Sprintf("message %d of a burst of %d: %v", i, burst, err), nil)
+				break
+			}
+			if ok, why := msgEqual(&sent[i], &got); !ok {
+				r.Violation("p2psender:burst:wire-differs:"+why, bkey, fmt.Sprintf("message %d of a burst of %d differs from what was sent in %s", i, burst, why), nil)
+				break
+			}
+		}
+		cancel()
+		r.Outcome("p2psend-burst-ok")
+	}
 	var _ peer.ID
 }
